@@ -3,6 +3,7 @@ import RawPanelVerif.Lemmas.GfxCor
 import RawPanelVerif.Lemmas.GfxSpecLift
 import RawPanelVerif.Lemmas.GfxErase
 import RawPanelVerif.Lemmas.GfxMulti
+import RawPanelVerif.Lemmas.GfxMsgs
 import RawPanelVerif.Lemmas.GfxHeap
 import RawPanelVerif.Gen.Reader
 /-!
@@ -73,6 +74,19 @@ of digits and leading zeros.  `numbers_as_the_code_reads_them` says what `su.Int
 * `clean_run_spec_multi_any_state` the same from ANY state of the batch locals, ANY reader state, ANY JSON document — hence
   after any earlier history (`history_split`: a history is the earlier history followed by the rest run from the state it
   left, positions continued)
+
+**Several images in ONE encoder call** (`encodeMsgs`: any number of messages, each with any number of states, each state
+with its own format, dimensions, offset flag, bytes and target ids; `Spec.Gfx.checkEncAll` / `checkCleanAll` demand, per
+image in message order and per id in order, one clean run and one delivery of THAT image)
+* `encoder_call_clean`            `Spec.Gfx.checkEncAll (sentImgs msgs.flatten) (encodeMsgs msgs) = none`
+* `clean_run_spec_call_any_state` the call's whole output, woven with unrelated lines, from ANY batch locals / reader state /
+  JSON document: one delivery per image and id, in message order, each equal to its own image (format included), at the
+  last line of its run — batch, streaming, serialised
+* `clean_run_spec_call`           … from the initial states in the forms the driver evaluates (batch without positions)
+* `call_checks_generalise`        on a single image `cleanRunsAll` / `checkEncAll` / `checkCleanAll` are `cleanRuns` /
+  `checkEnc` / `checkClean`;  `call_is_states_in_order`: a call's lines are its states' lines, message after message
+* `carried_prefix_rejected`       the whole-call check is not vacuous: an RGB image followed by a MONO image whose lines
+  carry the RGB prefix fails `checkEncAll`, and a MONO image delivered as RGB fails `checkCleanAll`
 
 **The JSON hop** (`Lemmas/GfxJson.lean`): `json.Marshal`/`Unmarshal` replace invalid UTF-8 in the held lines by U+FFFD
 (`jsonFix`, compared with the real hop on every record: the final reader state lists the held lines).  `serial_stream`:
@@ -402,6 +416,103 @@ theorem clean_run_spec_multi (g : Img) (ids : List Nat) (hids : ∀ id ∈ ids, 
   refine ⟨h1, ?_, h3, h4, h5⟩
   rw [batchObserved_eq]
   exact checkClean_erase _ _ _ _ h2
+
+/-! ## several images in one encoder call -/
+
+/-- one call of the encoder is its messages' states in order: the lines of `encodeMsgs` are the lines of every state
+(`encodeState`: one transfer per target id), message after message, state after state — and, run by run, the transfers
+of `runsOfImgs` (one per non-empty image and id) -/
+theorem call_is_states_in_order (msgs : List (List (Img × List Nat))) :
+    encodeMsgs msgs = msgs.flatten.flatMap (fun s => encodeState s.1 s.2) ∧
+    encodeMsgs msgs = encodeRuns (runsOfImgs msgs.flatten) :=
+  ⟨encodeMsgs_eq_flatten msgs, encodeMsgs_eq_runs msgs⟩
+
+/-- the encoder's output for a whole call passes the Spec's whole-call encoder check: only chunk lines; per image in
+message order and per id in order one clean run with THAT image's format, header metadata and bytes; nothing for an
+empty image or an empty target list -/
+theorem encoder_call_clean (msgs : List (List (Img × List Nat))) (hok : ImgsOK msgs.flatten) :
+    Spec.Gfx.checkEncAll (sentImgs msgs.flatten) (encodeMsgs msgs) = none :=
+  checkEncAll_encodeMsgs msgs hok
+
+/-- **one call carrying several images** (any number of messages and states; formats, dimensions, offsets, sizes and
+targets of every state its own; image fields and ids fit `uint32`), its whole output with unrelated lines woven in
+anywhere, from ANY state of the batch decoder's locals, ANY reader state, ANY serialised reader state: the graphics
+lines are, for the Spec, one clean run per image and id in message order, and the Spec's whole-call clean-run check
+passes: exactly one delivery per run, in order, equal to the image of that run, at its last line, unaltered -/
+theorem clean_run_spec_call_any_state (msgs : List (List (Img × List Nat))) (hok : ImgsOK msgs.flatten)
+    (all : List Bytes) (w : Weave (encodeMsgs msgs) all) (s0 : BState) (s : RState) (wire : Option Wire) :
+    Spec.Gfx.cleanRunsAll (sentImgs msgs.flatten) all = true ∧
+    Spec.Gfx.checkCleanAll (sentImgs msgs.flatten) all
+      (delivsOf (Batch.runFrom Batch.step s0 0 all).1.store (Batch.runFrom Batch.step s0 0 all).2) = none ∧
+    Spec.Gfx.cleanRunsAll (sentImgs msgs.flatten) (all.map Bytes.trimSpace) = true ∧
+    Spec.Gfx.checkCleanAll (sentImgs msgs.flatten) (all.map Bytes.trimSpace)
+      (delivsOfStream (Stream.runFrom Stream.parse s 0 all).2) = none ∧
+    Spec.Gfx.checkCleanAll (sentImgs msgs.flatten) (all.map Bytes.trimSpace)
+      (delivsOfStream (Serial.runFrom Stream.parse wire 0 all).2) = none :=
+  clean_msgs_any msgs hok all w s0 s wire
+
+/-- … from the initial states, in the forms the driver evaluates on a `gfx.multi` record: the batch call as its caller
+observes it (no positions), the streaming reader and the serialised reader with the positions of the `Parse` calls -/
+theorem clean_run_spec_call (msgs : List (List (Img × List Nat))) (hok : ImgsOK msgs.flatten)
+    (all : List Bytes) (w : Weave (encodeMsgs msgs) all) :
+    Spec.Gfx.cleanRunsAll (sentImgs msgs.flatten) all = true ∧
+    Spec.Gfx.checkCleanAll (sentImgs msgs.flatten) all (batchObserved Batch.step all) = none ∧
+    Spec.Gfx.cleanRunsAll (sentImgs msgs.flatten) (all.map Bytes.trimSpace) = true ∧
+    Spec.Gfx.checkCleanAll (sentImgs msgs.flatten) (all.map Bytes.trimSpace) (streamDelivs Stream.parse all) = none ∧
+    Spec.Gfx.checkCleanAll (sentImgs msgs.flatten) (all.map Bytes.trimSpace) (serialDelivs Stream.parse all) = none := by
+  obtain ⟨h1, h2, h3, h4, h5⟩ := clean_msgs_any msgs hok all w {} {} none
+  refine ⟨h1, ?_, h3, h4, h5⟩
+  rw [batchObserved_eq]
+  exact checkCleanAll_erase _ _ _ h2
+
+/-- the whole-call predicates generalise the single-image ones: on a call with one image they are equal to them, on
+every history and every list of deliveries -/
+theorem call_checks_generalise (g : Spec.Gfx.Sent) (ids : List Nat) (lines : List Bytes) (ds : List Spec.Gfx.Deliv) :
+    Spec.Gfx.cleanRunsAll [(g, ids)] lines = Spec.Gfx.cleanRuns g ids lines ∧
+    Spec.Gfx.checkEncAll [(g, ids)] lines = Spec.Gfx.checkEnc g ids lines ∧
+    Spec.Gfx.checkCleanAll [(g, ids)] lines ds = Spec.Gfx.checkClean g ids lines ds :=
+  ⟨cleanRunsAll_single g ids lines, checkEncAll_single g ids lines, checkCleanAll_single g ids lines ds⟩
+
+namespace Call
+/-- a 1-byte RGB image for id 5 and a 1-byte MONO image for id 6, both 8x8 -/
+def rgb : Spec.Gfx.Sent := { fmt := 1, W := 8, H := 8, off := false, X := 0, Y := 0, data := [1] }
+def mono : Spec.Gfx.Sent := { fmt := 0, W := 8, H := 8, off := false, X := 0, Y := 0, data := [2] }
+/-- `HWCgRGB#5=0/0,8x8:AQ==` -/
+def lRGB5 : Bytes := [72,87,67,103,82,71,66,35,53,61,48,47,48,44,56,120,56,58,65,81,61,61]
+/-- `HWCg#6=0/0,8x8:Ag==` -/
+def lMono6 : Bytes := [72,87,67,103,35,54,61,48,47,48,44,56,120,56,58,65,103,61,61]
+/-- `HWCgRGB#6=0/0,8x8:Ag==`: the mono image's line with the prefix of the image before it -/
+def lRGB6 : Bytes := [72,87,67,103,82,71,66,35,54,61,48,47,48,44,56,120,56,58,65,103,61,61]
+def dRGB5 : Spec.Gfx.Deliv := ⟨none, { ids := [5], fmt := 1, W := 8, H := 8, off := false, X := 0, Y := 0, data := [1] }, [1]⟩
+def dMono6 : Spec.Gfx.Deliv := ⟨none, { ids := [6], fmt := 0, W := 8, H := 8, off := false, X := 0, Y := 0, data := [2] }, [2]⟩
+def dRGB6 : Spec.Gfx.Deliv := ⟨none, { ids := [6], fmt := 1, W := 8, H := 8, off := false, X := 0, Y := 0, data := [2] }, [2]⟩
+/-- the same two images on the model side: one message with two states -/
+def msgs : List (List (Img × List Nat)) :=
+  [[({ ty := 1, W := 8, H := 8, data := [1] }, [5]), ({ ty := 0, W := 8, H := 8, data := [2] }, [6])]]
+end Call
+
+/-- the whole-call checks are per image: the right lines and deliveries pass; a MONO image whose line carries the prefix
+of the RGB image before it (one line-prefix variable for the whole message) fails the encoder check, and a MONO image
+delivered with format RGB fails the clean-run check -/
+theorem carried_prefix_rejected :
+    Spec.Gfx.checkEncAll [(Call.rgb, [5]), (Call.mono, [6])] [Call.lRGB5, Call.lMono6] = none ∧
+    Spec.Gfx.checkCleanAll [(Call.rgb, [5]), (Call.mono, [6])] [Call.lRGB5, Call.lMono6] [Call.dRGB5, Call.dMono6] = none ∧
+    Spec.Gfx.checkEncAll [(Call.rgb, [5]), (Call.mono, [6])] [Call.lRGB5, Call.lRGB6] = some "enc-not-clean-run" ∧
+    Spec.Gfx.checkCleanAll [(Call.rgb, [5]), (Call.mono, [6])] [Call.lRGB5, Call.lMono6] [Call.dRGB5, Call.dRGB6]
+      = some "wrong-image@1" := by decide +kernel
+
+/-- hypotheses of `encoder_call_clean` / `clean_run_spec_call` on a real call (one message, an RGB state then a MONO state),
+which does emit lines; and what the Spec is told was sent is the two images above -/
+example : ImgsOK Call.msgs.flatten ∧ Weave (encodeMsgs Call.msgs) (encodeMsgs Call.msgs) ∧
+    (runsOfImgs Call.msgs.flatten).length = 2 ∧
+    sentImgs Call.msgs.flatten = [(Call.rgb, [5]), (Call.mono, [6])] := by
+  refine ⟨?_, Weave.refl _, by decide, by decide⟩
+  intro gi hgi
+  simp only [Call.msgs, List.flatten_cons, List.flatten_nil, List.append_nil, List.mem_cons, List.not_mem_nil,
+    or_false] at hgi
+  rcases hgi with rfl | rfl
+  · exact ⟨⟨by decide, by decide, by decide, by decide, by decide, by decide⟩, by decide⟩
+  · exact ⟨⟨by decide, by decide, by decide, by decide, by decide, by decide⟩, by decide⟩
 
 /-- a history is the earlier history followed by the rest run from the state the earlier history left behind, with
 the position count continued — so `clean_run_spec_multi_any_state` applies to a clean run after ANY earlier history -/
